@@ -1,7 +1,7 @@
 (* C09 - Unsatisfiable graphs are refused, satisfiable ones accepted, never mis-generated.  (v1: refusal of cycles) *)
 From Coq Require Import List Arith Lia Bool.
 Import ListNotations.
-Require Import Dfs Gen GenU GenSound Suppliers.
+Require Import Dfs GenU GenSound Suppliers.
 
 Section Cycle.
 Variable succs : nat -> list nat.
